@@ -231,6 +231,7 @@ def run(ctx):
             tw.close()
         from props import c08
         c08.big_link_file(res, "C07")        # entries hidden by blocks late in a large link file stay hidden
+        c08.trailing_slash_blocks(res, "C07")   # ... and a directory hidden or renamed by 'Path=./dir/' is hidden, or listed once
         outs = ctx.driver.run(model_lines + regex_lines)
         for (inp, impl), o in zip(checks, outs[:len(model_lines)]):
             res.evaluations += 1
@@ -259,6 +260,12 @@ def run(ctx):
 
 def replay(data):
     rp = data["violation"]["replay"]
+    if rp.get("trailing_slash_blocks"):
+        from props import c08
+        r = Result()
+        c08.trailing_slash_blocks(r, "C07")
+        print(r.violations)
+        return 0
     if rp.get("big_link_file"):
         from props import c08
         r = Result()
